@@ -74,7 +74,7 @@ func ResolveCustomTags(s string, targetType reflect.Type) (interface{}, error) {
 	// if target type is unknown, we still let other hooks process result (time.Duration, ipv4 and other hooks will do)
 	if len(tokens) == 1 && strings.TrimSpace(s) == tokens[0].string {
 		castedRes, err := cast(res, targetType)
-		if err == nil || !errors.Is(err, ErrCantCastVariableToTargetType) {
+		if err == nil || !(errors.Is(err, ErrCantCastVariableToTargetType) || errors.Is(err, ErrUnsupportedKind)) {
 			return castedRes, err
 		}
 	}
